@@ -1,10 +1,13 @@
 (* Driver of the extracted migration model (property C03).
      accept <src0> | ev | ev | ...        -> the model as an ACCEPTOR of the per-key projection of an observed trace:
          src0: nil | val:<hex>            initial value of the key on the source Redis (ttl: none)
-         ev:  inv <idx> <r|w|d> <hex|-> <push 0|1> <atsrc 0|1>
+         ev:  inv <idx> <r|w|d> <hex|-> <push 0|1|2> <atsrc 0|1>     push 2 = the effect of a multi-key command on a key other than its
+                                                                    first key (classified pushing; its only route at the destination is EvEnsured);
+                                                                    push 3 = one `EXISTS key` of ensure_keys_imported (a pull-path read, see `internal`)
               rep <idx> <any|nil|some|val:<hex>|err>
               s <c|p|x> <pttl|dump|del|cmd> <nil|val:<hex>> [<idx|-1> <r|w|d> <hex|->]     command on the SOURCE Redis, with the key's
-              d <p|x> <exists|restore|cmd> <nil|val:<hex>> [<idx|-1> <r|w|d> <hex|->]      value on that node BEFORE the command;
+              d <p|x> <exists|existsq|restore|cmd> <nil|val:<hex>> [<idx|-1> <r|w|d> <hex|->]   value on that node BEFORE the command;
+                   existsq = an EXISTS that is either the importing handler's check or an EXISTS command itself (ensure_keys_imported, client EXISTS)
                    c = backend connection of the source proxy (client command), p = backend connection of the destination proxy
                    (pull path / commands), x = migration client of the source proxy (scanner, push path)
               fin <s|d> <nil|val:<hex>>   final content of the node
@@ -30,6 +33,16 @@ type oev =
   | ORep of int * repc
   | ORedis of bool * string * string * pre * int * string * string     (* on_src, who, cmd, pre, idx, kind, hexval *)
   | OFin of bool * pre
+  | OKill of int
+
+let ensured : int list ref = ref []
+(* operations that stand for one `EXISTS key` of ensure_keys_imported (push 3): several are provided per multi-key command because a
+   redirected command runs ensure_keys_imported again; they only move when the next observed event is an EXISTS command *)
+let internal : int list ref = ref []
+(* operations that are EXISTS commands (kind e): only they explain an `existsq` execution, and they never explain a GET *)
+let exists_ops : int list ref = ref []
+(* position of the `kill <idx>` event of an internal operation: its multi-key command has been answered, it cannot start any more *)
+let kill_pos : (int, int) Hashtbl.t = Hashtbl.create 64
 
 let parse_kind k v : Migrate.kind =
   match k with
@@ -40,7 +53,11 @@ let parse_kind k v : Migrate.kind =
 
 let parse_ev (toks : string list) : oev =
   match toks with
-  | ["inv"; i; k; v; p; a] -> OInv (int_of_string i, parse_kind k v, p = "1", a = "1")
+  | ["inv"; i; k; v; p; a] ->
+    let k = if k = "e" then (exists_ops := int_of_string i :: !exists_ops; "r") else k in
+    if p = "2" then ensured := int_of_string i :: !ensured;
+    if p = "3" then internal := int_of_string i :: !internal;
+    OInv (int_of_string i, parse_kind k v, p = "1" || p = "2", a = "1")
   | ["rep"; i; c] ->
     let c' = match c with
       | "any" -> RAny | "nil" -> RNil | "some" -> RSome | "err" -> RErrC
@@ -49,6 +66,7 @@ let parse_ev (toks : string list) : oev =
   | [sd; who; cmd; pre] when sd = "s" || sd = "d" -> ORedis (sd = "s", who, cmd, parse_pre pre, -1, "", "")
   | [sd; who; cmd; pre; i; k; v] when sd = "s" || sd = "d" -> ORedis (sd = "s", who, cmd, parse_pre pre, int_of_string i, k, v)
   | ["fin"; sd; pre] -> OFin (sd = "s", parse_pre pre)
+  | ["kill"; i] -> OKill (int_of_string i)
   | _ -> failwith ("bad event " ^ Stdlib.String.concat " " toks)
 
 let rec split_bar (toks : string list) (cur : string list) (acc : string list list) =
@@ -67,7 +85,7 @@ let candidates (s : Migrate.state) (o : oev) : Migrate.event list =
   match o with
   | OInv (_, k, p, a) -> [Migrate.EvInvoke ({ Migrate.ckind = k; Migrate.cpush = p }, a)]
   | ORep (i, _) -> [Migrate.EvReply (nat i)]
-  | OFin _ -> []
+  | OFin _ | OKill _ -> []
   | ORedis (true, "c", "cmd", _, i, _, _) -> if i >= 0 then [Migrate.EvExecSrc (nat i)] else each (fun i -> Migrate.EvExecSrc i)
   | ORedis (true, "p", "dump", _, _, _, _) -> each (fun i -> Migrate.EvDumpExec i)
   | ORedis (true, "p", "pttl", _, _, _, _) -> each (fun i -> Migrate.EvPttlExec i)
@@ -76,6 +94,8 @@ let candidates (s : Migrate.state) (o : oev) : Migrate.event list =
   | ORedis (true, "x", "dump", _, _, _, _) -> Migrate.EvScanDump :: each (fun i -> Migrate.EvFastDump i) @ each (fun i -> Migrate.EvSlowDump i)
   | ORedis (true, "x", "del", _, _, _, _) -> Migrate.EvScanDel :: each (fun i -> Migrate.EvFastDel i) @ each (fun i -> Migrate.EvSlowDel i)
   | ORedis (false, "p", "exists", _, _, _, _) -> each (fun i -> Migrate.EvExistsExec i)
+  | ORedis (false, "p", "existsq", _, _, _, _) -> each (fun i -> Migrate.EvExistsExec i) @ each (fun i -> Migrate.EvExecDst i)
+  | ORedis (true, "c", "existsq", _, _, _, _) -> each (fun i -> Migrate.EvExecSrc i)
   | ORedis (false, "p", "restore", _, _, _, _) -> each (fun i -> Migrate.EvRestoreExec i)
   | ORedis (false, "p", "cmd", _, i, _, _) -> if i >= 0 then [Migrate.EvExecDst (nat i)] else each (fun i -> Migrate.EvExecDst i)
   | ORedis (false, "x", "restore", _, _, _, _) ->
@@ -92,7 +112,8 @@ let kind_matches (s : Migrate.state) (e : Migrate.event) (k : string) (v : strin
     | None -> false
     | Some o ->
       (match o.Migrate.ocmd.Migrate.ckind, k with
-       | Migrate.KRead, "r" -> true
+       | Migrate.KRead, "r" -> not (Stdlib.List.mem idx !exists_ops)
+       | Migrate.KRead, "e" -> Stdlib.List.mem idx !exists_ops
        | Migrate.KDelete, "d" -> true
        | Migrate.KWrite w, "w" -> w = unhex v
        | _ -> false)
@@ -110,44 +131,116 @@ let obs_matches (s : Migrate.state) (e : Migrate.event) (o : oev) : bool =
      | RErrC, Migrate.RErr -> true
      | _ -> false)
   | ORedis (true, _, cmd, pre, _, k, v), Migrate.OSrc (nm, p) -> int_of_nat nm = name_code cmd && p = pre && kind_matches s e k v
+  | ORedis (false, _, "existsq", pre, _, _, _), Migrate.ODst (nm, p) ->
+    p = pre && (int_of_nat nm = 0 || (int_of_nat nm = 3 && kind_matches s e "e" "-"))
+  | ORedis (true, _, "existsq", pre, _, _, _), Migrate.OSrc (nm, p) -> p = pre && int_of_nat nm = 3 && kind_matches s e "e" "-"
   | ORedis (false, _, cmd, pre, _, k, v), Migrate.ODst (nm, p) -> int_of_nat nm = name_code cmd && p = pre && kind_matches s e k v
   | _ -> false
 
-let hidden_events (s : Migrate.state) : Migrate.event list =
-  let per i (o : Migrate.opst) =
-    let i = nat i in
-    match o.Migrate.opc with
-    | Migrate.PReplied _ | Migrate.PDone _ ->
-      (match o.Migrate.ocl with Migrate.CLock -> [Migrate.EvPullUnlock i] | _ -> [])
+(* Hidden (unobservable) moves are scheduled LAZILY: an operation only moves right before the observed event it has to explain, and
+   only from a program counter from which hidden moves can reach that event; lock releases are applied eagerly (see `normalize`).
+   Hidden op-local moves commute with everything else except through the locks and the phases, whose own hidden changes are
+   always offered, so for runs respecting the premises nothing is lost. *)
+let focus_ok (next : oev) (i0 : int) (o : Migrate.opst) : bool =
+  let pc = o.Migrate.opc in
+  let routing = (match pc with Migrate.PAtDst | Migrate.PAtSrc | Migrate.PSrcQueued -> true | _ -> false) in
+  let kind_ok k =
+    (match o.Migrate.ocmd.Migrate.ckind, k with
+     | Migrate.KRead, "r" | Migrate.KDelete, "d" | Migrate.KWrite _, "w" -> true
+     | _, "" -> true
+     | _ -> false) in
+  match next with
+  | ORedis (false, "p", ("exists" | "existsq"), _, _, _, _) ->
+    routing || (match pc with Migrate.PExistsNo -> true | _ -> false)
+  | ORedis (true, "c", "existsq", _, _, _, _) -> routing && Stdlib.List.mem i0 !exists_ops
+  | ORedis (true, "p", "dump", _, _, _, _) -> (match pc with Migrate.PExistsNo -> true | _ -> false)
+  | ORedis (true, "x", "pttl", _, _, _, _) ->
+    routing || (match pc with Migrate.PPushPending _ | Migrate.PUmsyncSent -> true | _ -> false)
+  | ORedis (false, "p", "cmd", _, idx, k, _) ->
+    (idx < 0 || idx = i0) && kind_ok k
+    && (routing || (match pc with Migrate.PPushPending _ | Migrate.PUmsyncSent | Migrate.PSyncQueued | Migrate.PUmsyncReplied -> true | _ -> false))
+  | ORedis (true, "c", "cmd", _, idx, k, _) -> (idx < 0 || idx = i0) && kind_ok k && routing
+  | _ -> false
+
+let hidden_events (s : Migrate.state) (next : oev) (pos : int) : Migrate.event list =
+  let ops = Array.of_list s.Migrate.ops in
+  let after_globals = lazy (Stdlib.List.filter_map (fun g -> Migrate.step s g)
+      [Migrate.EvPreCheckAck; Migrate.EvBlockingDone; Migrate.EvDstPreSwitch; Migrate.EvSrcScanning; Migrate.EvScanFinished;
+       Migrate.EvDstFinal; Migrate.EvSrcFinal; Migrate.EvCommit]) in
+  let next_existsq = (match next with ORedis (_, _, "existsq", _, _, _, _) -> true | _ -> false) in
+  let per i0 (o : Migrate.opst) =
+    let i = nat i0 in
+    let is_int j = Stdlib.List.mem j !internal in
+    let killed = (match Hashtbl.find_opt kill_pos i0 with Some p -> p <= pos | None -> false) in
+    (* symmetry: of the interchangeable internal operations of one command only the first that is still waiting may start *)
+    let shadowed = i0 > 0 && is_int (i0 - 1) && (match ops.(i0 - 1).Migrate.opc with Migrate.PAtDst -> true | _ -> false)
+                   && not (match Hashtbl.find_opt kill_pos (i0 - 1) with Some p -> p <= pos | None -> false) in
+    let dormant = is_int i0 && (not next_existsq || killed || shadowed) in
+    let focused = focus_ok next i0 o in
+    (* an unfocused move is still offered when a hidden phase / commit change that is enabled now would disable it: the code may
+       have performed it before that change *)
+    let urgent (e : Migrate.event) =
+      (match Migrate.step s e with
+       | None -> false
+       | Some _ -> Stdlib.List.exists (fun g -> match Migrate.step g e with None -> true | Some _ -> false) (Lazy.force after_globals)) in
+    let routing = (match o.Migrate.opc with Migrate.PAtDst | Migrate.PAtSrc | Migrate.PSrcQueued -> true | _ -> false) in
+    let filt l =
+      if focused then l else if is_int i0 then []
+      else if routing && Lazy.force after_globals <> [] then l      (* a phase / commit change is pending: routing may have happened before it *)
+      else Stdlib.List.filter urgent l in
+    filt (match o.Migrate.opc with
+    | Migrate.PAtSrc | Migrate.PAtDst when dormant -> []
     | Migrate.PAtSrc -> [Migrate.EvSrcHandoff i; Migrate.EvSrcQueue i; Migrate.EvSrcRedirect i]
     | Migrate.PSrcQueued -> [Migrate.EvSrcRelease i]
-    | Migrate.PAtDst -> [Migrate.EvDstRedirect i; Migrate.EvDirect i; Migrate.EvSendExists i;
-                         Migrate.EvPushLock (i, true); Migrate.EvPushLock (i, false)]
+    | Migrate.PAtDst ->
+      if Stdlib.List.mem (int_of_nat i) !ensured then [Migrate.EvDstRedirect i; Migrate.EvDirect i; Migrate.EvEnsured i]
+      else [Migrate.EvDstRedirect i; Migrate.EvDirect i; Migrate.EvSendExists i;
+            Migrate.EvPushLock (i, true); Migrate.EvPushLock (i, false)]
     | Migrate.PExistsNo -> [Migrate.EvPullLock (i, true); Migrate.EvPullLock (i, false)]
     | Migrate.PPushPending _ -> [Migrate.EvPushRetry (i, true); Migrate.EvPushRetry (i, false)]
     | Migrate.PUmsyncSent -> [Migrate.EvSyncLock (i, true); Migrate.EvSyncLock (i, false); Migrate.EvSyncNotFound i]
     | Migrate.PSyncQueued -> [Migrate.EvSyncFinished i]
-    | Migrate.PUmsyncReplied -> [Migrate.EvPushForward i]
-    | Migrate.PFwd -> (match o.Migrate.ocl with Migrate.CLock -> [Migrate.EvPullUnlock i] | _ -> [])
-    | _ -> [] in
+    | _ -> []) in
   Stdlib.List.concat (Stdlib.List.mapi per s.Migrate.ops)
   @ [Migrate.EvScanSkip; Migrate.EvScanLock; Migrate.EvPreCheckAck; Migrate.EvBlockingDone; Migrate.EvDstPreSwitch;
      Migrate.EvSrcScanning; Migrate.EvScanFinished; Migrate.EvDstFinal; Migrate.EvSrcFinal; Migrate.EvCommit]
 
+(* lock releases that the code performs without any further input are applied as soon as they are enabled *)
+let rec normalize (s : Migrate.state) (n : int) : Migrate.state * int =
+  let rec find i = function
+    | [] -> None
+    | (o : Migrate.opst) :: r ->
+      let e = (match o.Migrate.opc, o.Migrate.ocl with
+          | Migrate.PUmsyncReplied, _ -> Some (Migrate.EvPushForward (nat i))
+          | _, Migrate.CLock -> Some (Migrate.EvPullUnlock (nat i))
+          | _ -> None) in
+      (match e with Some e -> Some e | None -> find (i + 1) r) in
+  match find 0 s.Migrate.ops with
+  | Some e -> (match Migrate.step s e with Some s' -> normalize s' (n + 1) | None -> (s, n))
+  | None -> (s, n)
+
 exception Budget
 
-(* enforce: 0 = all premises, 1 = without c11, 2 = without commit, 3 = none *)
+(* enforce: 0 = all premises, 1 = without c11, 2 = without commit, 4 = without ensured, 3 = none *)
 let search (s0 : Migrate.state) (evs : oev array) (enforce : int) : (int * int) option * int =
   let n = Array.length evs in
   let visited : (string, unit) Hashtbl.t = Hashtbl.create 4096 in
   let best = ref 0 in
   let nodes = ref 0 in
   let premise s e =
-    (enforce = 1 || enforce = 3 || Migrate.c11_step s e) && (enforce = 2 || enforce = 3 || Migrate.commit_step s e) in
+    (enforce = 1 || enforce = 3 || Migrate.c11_step s e) && (enforce = 2 || enforce = 3 || Migrate.commit_step s e)
+    && (enforce = 4 || enforce = 3 || Migrate.ensured_step s e) in
   let rec go (s : Migrate.state) (pos : int) (steps : int) (hid : int) : (int * int) option =
+    let (s, nn) = normalize s 0 in
+    let steps = steps + nn and hid = hid + nn in
     if pos > !best then best := pos;
     if pos = n then Some (steps, hid) else begin
-      let key = Marshal.to_string (pos, s) [] in
+        let live_idx = Stdlib.List.filter (fun (_, (o : Migrate.opst)) ->
+            match o.Migrate.opc, o.Migrate.ocl with
+            | Migrate.PReplied _, (Migrate.CNone | Migrate.CDone) -> false
+            | _ -> true) (Stdlib.List.mapi (fun i o -> (i, o)) s.Migrate.ops) in
+        (* operations that are answered and cleaned up are the same along every path reaching this position *)
+        let key = Digest.string (Marshal.to_string (pos, s.Migrate.gl, live_idx) [Marshal.No_sharing]) in
       if Hashtbl.mem visited key then None else begin
         Hashtbl.add visited key ();
         incr nodes;
@@ -155,6 +248,7 @@ let search (s0 : Migrate.state) (evs : oev array) (enforce : int) : (int * int) 
         let o = evs.(pos) in
         let direct =
           match o with
+          | OKill _ -> go s (pos + 1) steps hid
           | OFin (on_src, pre) ->
             let g = s.Migrate.gl in
             let v = Migrate.coq_val (if on_src then g.Migrate.src else g.Migrate.dst) in
@@ -180,7 +274,7 @@ let search (s0 : Migrate.state) (evs : oev array) (enforce : int) : (int * int) 
                  | Some s' when s' <> s -> (match go s' pos (steps + 1) (hid + 1) with Some x -> Some x | None -> try_h r)
                  | _ -> try_h r)
               else try_h r in
-          try_h (hidden_events s)
+          try_h (hidden_events s o pos)
       end
     end in
   let r = go s0 0 0 0 in
@@ -194,7 +288,9 @@ let run_case (line : string) : string =
   match toks with
   | "accept" :: src0 :: rest ->
     let groups = split_bar rest [] [] in
+    ensured := []; internal := []; exists_ops := []; Hashtbl.reset kill_pos;
     let evs = Array.of_list (Stdlib.List.map parse_ev groups) in
+    Array.iteri (fun p e -> match e with OKill i -> Hashtbl.replace kill_pos i p | _ -> ()) evs;
     let s0 = Migrate.init (match parse_pre src0 with None -> None | Some v -> Some (v, Ttl.coq_PTTL_NO_EXPIRE)) in
     (try
        match search s0 evs 0 with
@@ -206,7 +302,10 @@ let run_case (line : string) : string =
             | None ->
               (match (try fst (search s0 evs 2) with Budget -> None) with
                | Some _ -> Some "commit"
-               | None -> None)) in
+               | None ->
+                 (match (try fst (search s0 evs 4) with Budget -> None) with
+                  | Some _ -> Some "ensured"
+                  | None -> None))) in
          (match outside with
           | Some w -> Stdlib.Printf.sprintf "accept outside-premise %s at=%d ev=%s" w best (ev_text groups best)
           | None -> Stdlib.Printf.sprintf "accept reject at=%d ev=%s" best (ev_text groups best))
